@@ -10,7 +10,7 @@ PROP, LEVEL = 'C10', 'exploration'
 
 
 def make_cases(tier, seed):
-    n = 400 if tier == 'quick' else 5000
+    n = 900 if tier == 'quick' else 6000
     cases = []
     for i in range(n):
         r = gen.seeded(seed, 'C10', i)
